@@ -196,6 +196,118 @@ theorem hidden_state_breaks_restart :
     (runRestartH policyH stepH initH Mode.memory d 1).map (fun R => R.1.st.resultAll) = some (some (13/4)) := by
   decide +kernel
 
+/-! ## the concrete selection rule of run()
+
+  `selectionPolicy argsort crit ncrit adpt_fac expand` is run()'s decision: for every criterion the `adpt_fac` last
+  positions of `argsort(max|result| × weight)`, their union, then division/merging (`expand`).  It reads the results
+  (through `crit`, the pickled `_max`) and the weights only — persisted state. -/
+
+/-- T4.  Restart equivalence for the concrete selection rule, for EVERY function `argsort` (stable or not, whatever it
+    does with equal scores), every criterion vector, `adpt_fac` and every `expand`.  No tie-freeness is needed here:
+    after a restart from the LATEST iteration `argsort` is applied to exactly the same arrays as in the uninterrupted
+    run, and a function returns equal values on equal arguments. -/
+theorem restart_equiv_selection_rule (argsort : List Rat → List Nat) (crit : Rat → List Rat) (ncrit adptFac : Nat)
+    (expand : List Nat → List (KP Rat) → List (RefOp Rat)) (mode : Mode) (hm : mode ≠ Mode.clear)
+    (init : List (Rat × Rat)) (n1 n2 : Nat) (d : Disk Rat)
+    (hk : d.klog = (runFresh (selectionPolicy argsort crit ncrit adptFac expand) mode init n1).disk.klog)
+    (hf : d.facs.Perm (runFresh (selectionPolicy argsort crit ncrit adptFac expand) mode init n1).disk.facs) :
+    ∃ R, runRestart true (selectionPolicy argsort crit ncrit adptFac expand) mode d (-1) n2 = some R ∧
+      R.st = (runFresh (selectionPolicy argsort crit ncrit adptFac expand) mode init (n1 + n2)).st ∧
+      (runFresh (selectionPolicy argsort crit ncrit adptFac expand) mode init (n1 + n2)).saved =
+        (runFresh (selectionPolicy argsort crit ncrit adptFac expand) mode init n1).saved ++ R.saved := by
+  obtain ⟨R, h1, h2, h3, _⟩ := restart_equiv (selectionPolicy argsort crit ncrit adptFac expand) mode hm init n1 n2 d hk hf
+  exact ⟨R, h1, h2, h3⟩
+
+/-- T4' (tie-free data).  When the scores of every criterion are pairwise different, the selection does not depend on
+    WHICH admissible argsort is used: any two functions that return a sorting permutation select the same points.
+    (This is the situation in which runs that apply argsort to different arrays — another numpy version, or a restart
+    from an EARLIER iteration, where stale zero-weight points sit in the list — can be expected to agree.) -/
+theorem selection_independent_of_argsort_when_tie_free (as1 as2 : List Rat → List Nat)
+    (h1 : ∀ v, IsArgsort v (as1 v)) (h2 : ∀ v, IsArgsort v (as2 v)) (crit : Rat → List Rat) (ncrit adptFac : Nat)
+    (pts : List (KP Rat)) (htie : ∀ c, c < ncrit → (kmaxRow crit pts c).Nodup) :
+    selectPoints as1 crit ncrit adptFac pts = selectPoints as2 crit ncrit adptFac pts := by
+  unfold selectPoints
+  congr 1
+  apply List.flatMap_congr
+  intro c hc
+  rw [argsort_unique_of_nodup (htie c (List.mem_range.1 hc)) (h1 _) (h2 _)]
+
+/-- T4'' — tie-freeness is needed: on two equal scores the stable argsort and the one that puts later positions
+    first are both admissible answers of `np.argsort`, and they select different K-points for refinement.
+    (Observed on the real code: restarting from an earlier iteration with an integer-valued calculator refines other
+    points than the original run.) -/
+theorem argsort_ties_change_selection :
+    let pts : List (KP Rat) := [KP.fresh 3 (1/2), KP.fresh 3 (1/2)]
+    let crit : Rat → List Rat := fun r => [r]
+    IsArgsort (kmaxRow crit pts 0) (argsortStable (kmaxRow crit pts 0)) ∧
+    IsArgsort (kmaxRow crit pts 0) (argsortRev (kmaxRow crit pts 0)) ∧
+    selectPoints argsortStable crit 1 1 pts = [1] ∧ selectPoints argsortRev crit 1 1 pts = [0] := by
+  refine ⟨⟨?_, ?_⟩, ⟨?_, ?_⟩, ?_, ?_⟩
+  · decide +kernel
+  · decide +kernel
+  · have : argsortRev (kmaxRow (fun r => [r]) [KP.fresh (3 : Rat) (1/2), KP.fresh 3 (1/2)] 0) = [1, 0] := by decide +kernel
+    rw [this]; exact List.Perm.swap 0 1 []
+  · decide +kernel
+  · decide +kernel
+  · decide +kernel
+
+/-- T4-padding (restart from an EARLIER iteration: stale zero-weight points behind the live ones).  Scores are
+    `max|result| * weight ≥ 0`.  If the POSITIVE scores are pairwise different and at least `k = adpt_fac` of them
+    exist, then the `k` positions selected from the array padded with `m` zero scores are exactly the positions
+    selected from the unpadded array — for ANY admissible argsorts on the two arrays (ties among the zero scores of
+    dead and stale points may be broken in any way). -/
+theorem selection_stable_under_zero_padding (v : List Rat) (m k : Nat) (p q : List Nat)
+    (hnn : ∀ x ∈ v, 0 ≤ x)
+    (hdist : ∀ i j, i < v.length → j < v.length → 0 < v.getD i 0 → v.getD i 0 = v.getD j 0 → i = j)
+    (hp : IsArgsort v p) (hq : IsArgsort (v ++ List.replicate m 0) q)
+    (hk : k ≤ ((List.range v.length).filter (fun i => decide (0 < v.getD i 0))).length) :
+    lastK k p = lastK k q := by
+  have hf0 : ∀ i, 0 ≤ v.getD i 0 := by
+    intro i
+    by_cases hi : i < v.length
+    · rw [List.getD_eq_getElem?_getD, List.getElem?_eq_getElem hi]; exact hnn _ (List.getElem_mem hi)
+    · rw [List.getD_eq_getElem?_getD, List.getElem?_eq_none (by omega)]; exact le_refl _
+  have hfg : ∀ i, i < v.length → (v ++ List.replicate m (0 : Rat)).getD i 0 = v.getD i 0 := by
+    intro i hi
+    simp [List.getD_eq_getElem?_getD, List.getElem?_append_left hi]
+  have hg0' : ∀ i, v.length ≤ i → (v ++ List.replicate m (0 : Rat)).getD i 0 = 0 := by
+    intro i hi
+    rw [List.getD_eq_getElem?_getD, List.getElem?_append_right hi]
+    by_cases h2 : i - v.length < m
+    · simp [h2]
+    · simp [h2]
+  have hg0 : ∀ i, v.length ≤ i → ¬ 0 < (v ++ List.replicate m (0 : Rat)).getD i 0 := by
+    intro i hi; rw [hg0' i hi]; exact lt_irrefl _
+  have hgnn : ∀ i, 0 ≤ (v ++ List.replicate m (0 : Rat)).getD i 0 := by
+    intro i
+    by_cases hi : i < v.length
+    · rw [hfg i hi]; exact hf0 i
+    · rw [hg0' i (by omega)]
+  have hlen : (v ++ List.replicate m (0 : Rat)).length = v.length + m := by simp
+  have hpos := positive_part_unique v.length (fun i => v.getD i 0) (fun i => (v ++ List.replicate m (0 : Rat)).getD i 0)
+    hfg hg0 hdist p q (v.length + m) (by omega) hp.1 hp.2 (by rw [← hlen]; exact hq.1) hq.2
+  have hkp : k ≤ (p.filter (fun i => decide (0 < v.getD i 0))).length := by
+    rw [(hp.1.filter _).length_eq]; exact hk
+  rw [sorted_split (fun i => v.getD i 0) hf0 p hp.2, lastK_append k _ _ hkp,
+    sorted_split (fun i => (v ++ List.replicate m (0 : Rat)).getD i 0) hgnn q hq.2,
+    lastK_append k _ _ (by rw [← hpos]; exact hkp), hpos]
+
+/-- non-vacuity: scores `[3, 0, 5, 1]` (one dead point), 3 stale zero entries appended, adpt_fac = 2 -/
+example :
+    IsArgsort [3, 0, 5, 1] (argsortStable [3, 0, 5, 1]) ∧
+    IsArgsort ([3, 0, 5, 1] ++ List.replicate 3 0) (argsortRev ([3, 0, 5, 1] ++ List.replicate 3 0)) ∧
+    lastK 2 (argsortStable [3, 0, 5, 1]) = [0, 2] ∧
+    lastK 2 (argsortRev ([3, 0, 5, 1] ++ List.replicate 3 0)) = [0, 2] := by
+  refine ⟨⟨by decide +kernel, by decide +kernel⟩, ⟨by decide +kernel, by decide +kernel⟩, by decide +kernel, by decide +kernel⟩
+
+/-- non-vacuity of T4': a tie-free instance with two criteria and adpt_fac = 2 -/
+example :
+    let pts : List (KP Rat) := [KP.fresh 3 (1/2), KP.fresh 5 (1/4), KP.fresh 1 (1/4)]
+    let crit : Rat → List Rat := fun r => [r, 10 - r]
+    (kmaxRow crit pts 0).Nodup ∧ (kmaxRow crit pts 1).Nodup ∧
+    selectPoints argsortStable crit 2 2 pts = [1, 0, 2] ∧ selectPoints argsortRev crit 2 2 pts = [1, 0, 2] := by
+  decide +kernel
+
 /-! ## concrete instances (non-vacuity) -/
 
 /-- a policy for the examples: refine the last K-point into two children with values 1 and 2, merge nothing -/
